@@ -22,7 +22,7 @@ FAMILY = {
     "C08": {"results_read_when_idle", "one_stored_chain_per_started_epoch",
             "tracked_keys_respect_included_excluded", "stored_chain_is_thinned_per_iteration_states",
             "stored_chain_empty_iff_nothing_kept", "transition_infos_for_every_transition",
-            "kernel_states_for_every_transition", "stored_kernel_states_are_those_after_the_transition", "posterior_accessor_returns_exactly_posterior_epochs", "stored_results_unchanged_by_reading_and_summarising", "results_object_obtained_earlier_shows_what_was_sampled_since", "results_written_to_disk_and_read_back_show_the_same_chains",
+            "kernel_states_for_every_transition", "stored_kernel_states_are_those_after_the_transition", "posterior_accessor_returns_exactly_posterior_epochs", "stored_results_unchanged_by_reading_and_summarising", "computed_position_entries_are_computed_from_the_chains_own_state", "results_object_obtained_earlier_shows_what_was_sampled_since", "results_written_to_disk_and_read_back_show_the_same_chains",
             "generated_quantities_once_per_stored_iteration_from_post_transition_state"},
     "C09": {"starts_from_state_left_by_predecessor", "blocks_only_written_by_their_own_kernel",
             "probe_wrote_expected_tag"},
@@ -89,6 +89,11 @@ def handwritten(tier_quick: bool):
         # kernel returned); progress bars on
         dict(ops=[("all",), ("append", C(4, 2)), ("next",)], init_cfgs=[I, C(1, 2), C(2, 4, 2), C(3, 2), C(4, 4)], K=2,
              needs_hist=(2,), chains=3, J=2, tune_error_chains=(1,), show_progress=True, store_kernel_states=True),
+        # a model interface that computes a tracked quantity from the state (several chains)
+        dict(ops=[("all",)], init_cfgs=[I, C(1, 2), C(4, 4, 2)], K=2, needs_hist=(), chains=3, J=2, computing=True,
+             included=("nel",)),
+        dict(ops=[("all",)], init_cfgs=[I, C(3, 2), C(4, 2)], K=1, needs_hist=(), chains=2, via_builder=True, computing=True,
+             included=("nel", "const")),
         # first real epoch is posterior; J = 1; thinning that never keeps anything in a chunk
         dict(ops=[("append", I), ("append", C(4, 3, 3)), ("next",), ("next",), ("append", C(4, 2, 2)),
                   ("next",), ("append", C(4, 1)), ("all",)],
